@@ -21,7 +21,7 @@ BOUNDS = {
     'quick': dict(structured='singles and 16 ordered pairs of message types (thorough: all 49), symbolic fields, data blob of '
                              'symbolic length < 2^64, ext lists 0..2 on the first message; one symbolic cut position anywhere',
                   raw='1..2 fully symbolic octets in-connection; contact phase 1..7 symbolic octets; every cut'),
-    'thorough': dict(structured='all 49 pairs and selected triples, ext lists 0..2 on single messages and 0..1 in longer streams', raw='up to 4 symbolic octets in-connection, 8 in the contact phase'),
+    'thorough': dict(structured='all 49 pairs and 20 triples (at most one segment message each), ext lists 0..2 on single messages and 0..1 in longer streams', raw='up to 3 symbolic octets in-connection, 7 in the contact phase'),
 }
 ASSUMPTIONS = [
     'the peer stream is read in exactly two chunks (one cut); each read is below CHUNK_SIZE',
@@ -46,9 +46,9 @@ def cases(tier):
             # zero-field messages; thorough: every ordered pair
             if tier == 'thorough' or (j == (i + 1) % 7 and t1 != 'SESS_INIT') or 'KEEPALIVE' in (t1, t2) and 'XFER' in t1 + t2:
                 out.append(dict(kind='msgs', seq=t1 + '+' + t2))
-    for n in (range(1, 3) if tier == 'quick' else range(1, 5)):
+    for n in (range(1, 3) if tier == 'quick' else range(1, 4)):
         out.append(dict(kind='raw', n=n))
-    for n in range(1, 8 if tier == 'quick' else 9):
+    for n in range(1, 8):
         out.append(dict(kind='contact', n=n))
     for t in TYPES:
         out.append(dict(kind='codec', seq=t))
@@ -56,7 +56,8 @@ def cases(tier):
         for t1 in ('XFER_SEGMENT', 'KEEPALIVE', 'SESS_TERM'):
             for t2 in ('XFER_SEGMENT', 'XFER_ACK', 'KEEPALIVE'):
                 for t3 in ('XFER_SEGMENT', 'KEEPALIVE', 'MSG_REJECT'):
-                    out.append(dict(kind='msgs', seq='+'.join((t1, t2, t3))))
+                    if (t1, t2, t3).count('XFER_SEGMENT') <= 1:
+                        out.append(dict(kind='msgs', seq='+'.join((t1, t2, t3))))
     return out
 
 
